@@ -81,10 +81,10 @@ func (f *fAdapterTransport) Open() error {
 	// earlier generation can neither block a later close nor be mistaken by a
 	// later read loop for a requested close.
 	f.closeSignal = make(chan struct{}, 1)
+	verifHook("life.open", f, verifChanID(f.closeSignal), 0)
 	go f.readLoop(f.closeSignal)
 	f.isOpen = true
 	f.closeChan = make(chan error, 1)
-	verifHook("life.open", f, verifChanID(f.closeSignal), 0)
 	return nil
 }
 
